@@ -359,6 +359,130 @@ fn main() {
         });
     }
     mismatches.fetch_add(race_mismatch.load(Ordering::Relaxed), Ordering::Relaxed);
+    // Families derived from ONE parent object: the children (and a grandchild each) are made with
+    // `take_action` from the same parent value, so whatever a successor shares with its parent or its
+    // siblings beyond the immutable history is shared here.  Three instances per parent are queried in
+    // different orders (captures first / last / rotated), all threads at once, and every answer is
+    // compared with the fresh twin built by replay.
+    let fam_mismatch = AtomicUsize::new(0);
+    let mut families = 0usize;
+    for (ri, r) in recipes.iter().enumerate() {
+        if ri % 5 != 2 || families >= 60 {
+            continue;
+        }
+        let probe = r.build();
+        if !probe.is_play_phase() {
+            continue;
+        }
+        let before = probe.piece_board().all_pieces.count_ones();
+        let mut acts: Vec<(Action, bool)> = probe.valid_actions_no_rep().into_iter().map(|a| (a, probe.take_action(&a).piece_board().all_pieces.count_ones() < before)).collect();
+        acts.sort_by_key(|(_, cap)| !*cap);
+        acts.truncate(8);
+        if acts.is_empty() {
+            continue;
+        }
+        // references once per member
+        let mut member_recipes: Vec<Recipe> = vec![];
+        for (a, _) in &acts {
+            let mut p = r.path.clone();
+            p.push(*a);
+            let child = Recipe { start: r.start.clone(), path: p.clone() };
+            let cs = child.build();
+            member_recipes.push(child);
+            if let Some(a2) = cs.valid_actions_no_rep().first() {
+                let mut p2 = p.clone();
+                p2.push(*a2);
+                member_recipes.push(Recipe { start: r.start.clone(), path: p2 });
+            }
+        }
+        member_recipes.push(r.clone());
+        let member_refs: Vec<Vec<String>> = member_recipes.iter().map(reference).collect();
+        families += 1;
+        for inst in 0..3usize {
+            // objects derived from one parent value
+            let parent = r.build();
+            let mut objs: Vec<GameState> = vec![];
+            for (a, _) in &acts {
+                let c = parent.take_action(a);
+                let gc = c.valid_actions_no_rep().first().map(|a2| c.take_action(a2));
+                // `c` was queried for its first action just now in instance 0 only; the other instances
+                // take the grandchild action from the recipe instead, so that `c` stays unqueried
+                objs.push(c);
+                if let Some(g) = gc {
+                    objs.push(g);
+                }
+            }
+            if inst > 0 {
+                // rebuild without querying the children: replay the recorded grandchild actions
+                objs.clear();
+                let mut k = 0;
+                for (a, _) in &acts {
+                    let c = parent.take_action(a);
+                    k += 1;
+                    let gc = if k < member_recipes.len() && member_recipes[k].path.len() == r.path.len() + 2 {
+                        let a2 = *member_recipes[k].path.last().unwrap();
+                        k += 1;
+                        Some(c.take_action(&a2))
+                    } else {
+                        None
+                    };
+                    objs.push(c);
+                    if let Some(g) = gc {
+                        objs.push(g);
+                    }
+                }
+            }
+            objs.push(parent);
+            if objs.len() != member_refs.len() {
+                continue;
+            }
+            let n = objs.len();
+            let order: Vec<usize> = match inst {
+                0 => (0..n).collect(),
+                1 => (0..n).rev().collect(),
+                _ => (0..n).map(|i| (i * 5 + 3) % n).collect::<std::collections::BTreeSet<_>>().into_iter().chain(0..n).collect::<Vec<_>>(),
+            };
+            let barrier = std::sync::Barrier::new(threads);
+            let ob = &objs;
+            let mr = &member_refs;
+            let fm = &fam_mismatch;
+            let exps = &expansions;
+            let fb = &first_bad;
+            let ord = &order;
+            let mrec = &member_recipes;
+            std::thread::scope(|sc| {
+                for t in 0..threads {
+                    let b = &barrier;
+                    sc.spawn(move || {
+                        b.wait();
+                        for j in 0..ord.len() {
+                            let i = ord[(j + t * 3) % ord.len()] % n;
+                            for q in perm(t * 7919 + j + inst) {
+                                let got = query(&ob[i], q);
+                                exps.fetch_add(1, Ordering::Relaxed);
+                                if got != mr[i][q] {
+                                    fm.fetch_add(1, Ordering::Relaxed);
+                                    let mut g = fb.lock().unwrap();
+                                    if g.is_none() {
+                                        *g = Some(format!(
+                                            "family of one parent object, instance {}: query {} on the state after [{}] (start {:?}) gave\n  {}\na fresh twin gives\n  {}",
+                                            inst,
+                                            q,
+                                            mrec[i].path.iter().map(enc_action).collect::<Vec<_>>().join(" "),
+                                            mrec[i].start,
+                                            &got[..got.len().min(300)],
+                                            &mr[i][q][..mr[i][q].len().min(300)]
+                                        ));
+                                    }
+                                }
+                            }
+                        }
+                    });
+                }
+            });
+        }
+    }
+    mismatches.fetch_add(fam_mismatch.load(Ordering::Relaxed), Ordering::Relaxed);
     // the shared states are unchanged afterwards
     let mut changed = 0;
     for (i, s) in states.iter().enumerate() {
